@@ -186,32 +186,123 @@ Proof.
       * now apply H3.
 Qed.
 
-Lemma login_results_ok c q rnd ref par o :
-  In o (login_results c q rnd ref par) -> lo_ok o = true ->
-  exists i, In i (matching_ingresses c q) /\ o = login_with c q rnd ref par i.
+(** ** the pushed-authorization exchange *)
+Lemma par_exchange_back body replies : Forall (fun b => b = BPar body) (fst (par_exchange body replies)).
+Proof.
+  induction replies as [|r l IH]; cbn [par_exchange]; [constructor|].
+  destruct r; cbn [fst]; try (repeat constructor).
+  destruct (par_exchange body l) as [b res]. cbn [fst] in *. constructor; [reflexivity|exact IH].
+Qed.
+
+(* a request_uri is obtained only from a healthy answer that follows nothing but 5xx answers; every attempt was posted *)
+Lemma par_exchange_some body replies back uri :
+  par_exchange body replies = (back, Some uri) ->
+  exists n rest, replies = repeat ParServerError n ++ ParOk uri :: rest /\ back = repeat (BPar body) (S n).
+Proof.
+  revert back. induction replies as [|r l IH]; intros back; cbn [par_exchange]; [discriminate|].
+  destruct r; try discriminate.
+  - intros [= <- <-]. exists O, l. split; reflexivity.
+  - destruct (par_exchange body l) as [b res] eqn:E. intros [= <- ->].
+    destruct (IH b eq_refl) as (n & rest & -> & ->). exists (S n), rest. split; reflexivity.
+Qed.
+
+Lemma par_exchange_healthy_after_5xx body n uri rest :
+  par_exchange body (repeat ParServerError n ++ ParOk uri :: rest) = (repeat (BPar body) (S n), Some uri).
+Proof. induction n as [|n IH]; cbn [repeat app par_exchange]; [reflexivity|]. rewrite IH. reflexivity. Qed.
+
+(* 5xx for the whole retry budget: every attempt was posted, no request_uri *)
+Lemma par_exchange_all_5xx body n : par_exchange body (repeat ParServerError n) = (repeat (BPar body) n, None).
+Proof. induction n as [|n IH]; cbn [repeat par_exchange]; [reflexivity|]. rewrite IH. reflexivity. Qed.
+
+(* a final failure after k 5xx answers: k+1 attempts reached the endpoint (k if it was unreachable), no request_uri *)
+Definition par_final (r : par_reply) : bool :=
+  match r with ParClientError | ParMalformed | ParTimeout | ParUnreachable => true | _ => false end.
+
+Lemma par_exchange_final body n r rest : par_final r = true ->
+  par_exchange body (repeat ParServerError n ++ r :: rest) =
+  (repeat (BPar body) (match r with ParUnreachable => n | _ => S n end), None).
+Proof.
+  intros Hr. induction n as [|n IH]; cbn [repeat app par_exchange].
+  - destruct r; try discriminate; reflexivity.
+  - rewrite IH. destruct r; reflexivity.
+Qed.
+
+Lemma login_par_without_par c q rnd ref replies uri i :
+  a_par c = false -> login_par c q rnd ref replies i = login_with c q rnd ref uri i.
+Proof. intros H. unfold login_par, login_with. rewrite H. reflexivity. Qed.
+
+(* a PAR endpoint that answers the first attempt healthily: the function the other theorems (C09) talk about *)
+Lemma login_par_healthy c q rnd ref uri rest i :
+  login_par c q rnd ref (ParOk uri :: rest) i = login_with c q rnd ref uri i.
+Proof. unfold login_par, login_with. destruct (a_par c); reflexivity. Qed.
+
+(* outcome of a login with PAR, both ways *)
+Lemma login_par_ok c q rnd ref replies i :
+  a_par c = true -> lo_ok (login_par c q rnd ref replies i) = true ->
+  exists n uri rest, replies = repeat ParServerError n ++ ParOk uri :: rest /\
+    lo_browser (login_par c q rnd ref replies i) = [(PClientId, VStr (a_client_id c)); (PRequestUri, uri)] /\
+    lo_back (login_par c q rnd ref replies i) = repeat (BPar (auth_params c q i rnd ++ client_auth c (rnd + 3))) (S n) /\
+    lo_cookie (login_par c q rnd ref replies i) = Some (CkEnc (a_key c) (login_cookie_fields c q i rnd ref)).
+Proof.
+  intros Hp. unfold login_par. rewrite Hp.
+  destruct (par_exchange _ replies) as [back [uri|]] eqn:E; cbn [lo_ok lo_browser lo_back lo_cookie]; [|discriminate].
+  intros _. apply par_exchange_some in E as (n & rest & -> & ->). exists n, uri, rest. repeat split.
+Qed.
+
+Lemma login_par_failed c q rnd ref replies i :
+  a_par c = true -> lo_ok (login_par c q rnd ref replies i) = false ->
+  lo_browser (login_par c q rnd ref replies i) = [] /\ lo_cookie (login_par c q rnd ref replies i) = None.
+Proof.
+  intros Hp. unfold login_par. rewrite Hp.
+  destruct (par_exchange _ replies) as [back [uri|]]; cbn [lo_ok lo_browser lo_cookie]; [discriminate|]. auto.
+Qed.
+
+Lemma login_par_back c q rnd ref replies i :
+  a_par c = true ->
+  Forall (fun b => b = BPar (auth_params c q i rnd ++ client_auth c (rnd + 3))) (lo_back (login_par c q rnd ref replies i)).
+Proof.
+  intros Hp. unfold login_par. rewrite Hp.
+  pose proof (par_exchange_back (auth_params c q i rnd ++ client_auth c (rnd + 3)) replies) as H.
+  destruct (par_exchange _ replies) as [back [uri|]]; exact H.
+Qed.
+
+Lemma login_results_ok c q rnd ref replies o :
+  In o (login_results c q rnd ref replies) -> lo_ok o = true ->
+  exists i, In i (matching_ingresses c q) /\ o = login_par c q rnd ref replies i.
 Proof.
   unfold login_results. destruct (matching_ingresses c q) as [|i l] eqn:E.
   - intros [<-|[]]. discriminate.
   - intros Hin _. apply in_map_iff in Hin as (i0 & <- & Hi). eauto.
 Qed.
 
+Lemma redirect_uri_in_auth_params c q i rnd : In (PRedirectUri, VStr (callback_url i)) (auth_params c q i rnd).
+Proof. unfold auth_params. cbn. auto 10. Qed.
+
 (* (4) the redirect_uri names a configured ingress that matches the request; no match: nothing is sent *)
-Theorem login_redirect_uri_configured c q rnd ref par o :
-  In o (login_results c q rnd ref par) -> lo_ok o = true ->
+Theorem login_redirect_uri_configured c q rnd ref replies o :
+  In o (login_results c q rnd ref replies) -> lo_ok o = true ->
   exists i, In i (a_ingresses c) /\ (i_host i = r_host q \/ i_host i = r_xfh q) /\ i_path i = matching_path c q /\
-            In (PRedirectUri, VStr (callback_url i)) (match lo_back o with [BPar b] => b | _ => lo_browser o end) /\
+            (a_par c = false -> In (PRedirectUri, VStr (callback_url i)) (lo_browser o)) /\
+            (a_par c = true -> lo_back o <> [] /\ forall b, In (BPar b) (lo_back o) -> In (PRedirectUri, VStr (callback_url i)) b) /\
             lo_cookie o = Some (CkEnc (a_key c) (login_cookie_fields c q i rnd ref)).
 Proof.
   intros Hin Hok. destruct (login_results_ok _ _ _ _ _ _ Hin Hok) as (i & Hi & ->).
-  apply matching_ingresses_spec in Hi as (H1 & H2 & H3). exists i. repeat split; auto.
-  - unfold login_with. destruct (a_par c); cbn [lo_back lo_browser].
-    + apply in_or_app. left. unfold auth_params. cbn. auto 10.
-    + unfold auth_params. cbn. auto 10.
-  - unfold login_with. destruct (a_par c); reflexivity.
+  apply matching_ingresses_spec in Hi as (H1 & H2 & H3). exists i. split; [exact H1|]. split; [exact H2|]. split; [exact H3|].
+  split; [|split].
+  - intros Hp. rewrite (login_par_without_par c q rnd ref replies (VStr []) i Hp). unfold login_with. rewrite Hp.
+    cbn [lo_browser]. apply redirect_uri_in_auth_params.
+  - intros Hp. destruct (login_par_ok c q rnd ref replies i Hp Hok) as (n & uri & rest & _ & _ & Hb & _). rewrite Hb. split.
+    + cbn [repeat]. discriminate.
+    + intros b Hbin. apply repeat_spec in Hbin.
+      assert (Hb' : b = auth_params c q i rnd ++ client_auth c (rnd + 3)) by congruence.
+      rewrite Hb'. apply in_or_app. left. apply redirect_uri_in_auth_params.
+  - destruct (a_par c) eqn:Hp.
+    + now destruct (login_par_ok c q rnd ref replies i Hp Hok) as (n & uri & rest & _ & _ & _ & Hc).
+    + rewrite (login_par_without_par c q rnd ref replies (VStr []) i Hp). unfold login_with. rewrite Hp. reflexivity.
 Qed.
 
-Theorem login_no_match_sends_nothing c q rnd ref par o :
-  matching_ingresses c q = [] -> In o (login_results c q rnd ref par) ->
+Theorem login_no_match_sends_nothing c q rnd ref replies o :
+  matching_ingresses c q = [] -> In o (login_results c q rnd ref replies) ->
   lo_ok o = false /\ lo_back o = [] /\ lo_browser o = [] /\ lo_cookie o = None /\ lo_rnd o = rnd.
 Proof. unfold login_results. intros ->. intros [<-|[]]. repeat split. Qed.
 
@@ -239,12 +330,24 @@ Proof.
   all: repeat split; try lia; intros [=]; lia.
 Qed.
 
-(* over a whole history of login requests: all nonce/state/verifier draws are pairwise distinct *)
-Fixpoint login_history (c : acfg) (reqs : list (areq * ingress)) (rnd : N) : list N * N :=
+(* ... whatever the PAR endpoint does: also a failed exchange has consumed its draws *)
+Theorem login_par_atoms_fresh c q rnd ref replies i :
+  let o := login_par c q rnd ref replies i in
+  rnd + 3 <= lo_rnd o /\ VRnd rnd <> VRnd (rnd + 1) /\ VRnd rnd <> VRnd (rnd + 2) /\ VRnd (rnd + 1) <> VRnd (rnd + 2).
+Proof.
+  cbn. unfold login_par. destruct (a_par c) eqn:Hp.
+  - destruct (par_exchange _ replies) as [back [uri|]]; cbn [lo_rnd]; destruct (a_use_secret c).
+    all: repeat split; try lia; intros [=]; lia.
+  - pose proof (login_atoms_fresh c q rnd ref (VStr []) i) as H. cbn zeta in H. exact H.
+Qed.
+
+(* over a whole history of login requests, each under its own behaviour of the PAR endpoint (healthy, failing, ...):
+   all nonce/state/verifier draws are pairwise distinct *)
+Fixpoint login_history (c : acfg) (reqs : list (areq * ingress * list par_reply)) (rnd : N) : list N * N :=
   match reqs with
   | [] => ([], rnd)
-  | (q, i) :: r =>
-    let o := login_with c q rnd (VStr []) (VStr []) i in
+  | (q, i, replies) :: r =>
+    let o := login_par c q rnd (VStr []) replies i in
     let '(atoms, rnd') := login_history c r (lo_rnd o) in
     (rnd :: rnd + 1 :: rnd + 2 :: atoms, rnd')
   end.
@@ -252,19 +355,19 @@ Fixpoint login_history (c : acfg) (reqs : list (areq * ingress)) (rnd : N) : lis
 Lemma login_history_bounds c reqs rnd :
   rnd <= snd (login_history c reqs rnd) /\ Forall (fun a => rnd <= a) (fst (login_history c reqs rnd)).
 Proof.
-  revert rnd. induction reqs as [|[q i] r IH]; intros rnd; cbn; [split; [lia|constructor]|].
-  pose proof (login_atoms_fresh c q rnd (VStr []) (VStr []) i) as (Hm & _). cbn zeta in Hm.
-  specialize (IH (lo_rnd (login_with c q rnd (VStr []) (VStr []) i))).
+  revert rnd. induction reqs as [|[[q i] rp] r IH]; intros rnd; cbn; [split; [lia|constructor]|].
+  pose proof (login_par_atoms_fresh c q rnd (VStr []) rp i) as (Hm & _). cbn zeta in Hm.
+  specialize (IH (lo_rnd (login_par c q rnd (VStr []) rp i))).
   destruct (login_history c r _) as [atoms rnd'] eqn:E. cbn in *. destruct IH as [H1 H2]. split; [lia|].
   repeat constructor; try lia. eapply Forall_impl; [|exact H2]. cbn. intros a Ha. lia.
 Qed.
 
 Theorem login_history_nodup c reqs rnd : NoDup (fst (login_history c reqs rnd)).
 Proof.
-  revert rnd. induction reqs as [|[q i] r IH]; intros rnd; cbn; [constructor|].
-  pose proof (login_atoms_fresh c q rnd (VStr []) (VStr []) i) as (Hm & _). cbn zeta in Hm.
-  pose proof (login_history_bounds c r (lo_rnd (login_with c q rnd (VStr []) (VStr []) i))) as [_ Hb].
-  specialize (IH (lo_rnd (login_with c q rnd (VStr []) (VStr []) i))).
+  revert rnd. induction reqs as [|[[q i] rp] r IH]; intros rnd; cbn; [constructor|].
+  pose proof (login_par_atoms_fresh c q rnd (VStr []) rp i) as (Hm & _). cbn zeta in Hm.
+  pose proof (login_history_bounds c r (lo_rnd (login_par c q rnd (VStr []) rp i))) as [_ Hb].
+  specialize (IH (lo_rnd (login_par c q rnd (VStr []) rp i))).
   destruct (login_history c r _) as [atoms rnd'] eqn:E. cbn in *.
   assert (Hnot : forall a, a < rnd + 3 -> ~ In a atoms).
   { intros a Ha Hin. rewrite Forall_forall in Hb. specialize (Hb a Hin). lia. }
@@ -342,6 +445,25 @@ Proof.
   - intros k f [= <- <-]. unfold login_cookie_fields. repeat constructor. exact Hr.
   - apply auth_params_no_cred.
   - intros k f [= <- <-]. unfold login_cookie_fields. repeat constructor. exact Hr.
+Qed.
+
+(* (6), (7) under every behaviour of the PAR endpoint *)
+Definition par_reply_public (r : par_reply) : Prop := match r with ParOk u => is_credential u = false | _ => True end.
+
+Theorem login_par_front_channel_has_no_credentials c q rnd ref replies i :
+  is_credential ref = false -> Forall par_reply_public replies ->
+  let o := login_par c q rnd ref replies i in
+  no_cred (lo_browser o) /\
+  (forall k f, lo_cookie o = Some (CkEnc k f) -> no_cred_fields f).
+Proof.
+  intros Hr Hp. cbn zeta. destruct (a_par c) eqn:Ep.
+  - destruct (lo_ok (login_par c q rnd ref replies i)) eqn:Eo.
+    + destruct (login_par_ok c q rnd ref replies i Ep Eo) as (n & uri & rest & -> & Hb & _ & Hc). rewrite Hb, Hc. split.
+      * rewrite Forall_app in Hp. destruct Hp as [_ Hp]. inversion Hp as [|? ? Hu _]; subst. repeat constructor. exact Hu.
+      * intros k f [= <- <-]. unfold login_cookie_fields. repeat constructor. exact Hr.
+    + destruct (login_par_failed c q rnd ref replies i Ep Eo) as [-> ->]. split; [constructor|discriminate].
+  - rewrite (login_par_without_par c q rnd ref replies (VStr []) i Ep).
+    apply (login_front_channel_has_no_credentials c q rnd ref (VStr []) i Hr eq_refl).
 Qed.
 
 Theorem logout_redirect_uri_configured c q rnd rt o :
